@@ -632,8 +632,8 @@ func (c *handlerCtx) handleReply() {
 		}
 		c.callCmd.result = c.input.Body()
 		c.stat = c.callCmd.stat
-		c.callCmd.done()
 		c.callCmd.cost = time.Duration(c.sess.timeNow() - c.callCmd.start)
+		c.callCmd.done()
 		if enablePrintRunLog() {
 			c.sess.printRunLog(c.RealIP(), c.callCmd.cost, c.input, c.callCmd.output, typeCallLaunch)
 		}
